@@ -221,11 +221,13 @@ impl Account {
 			let key_hash = hash_key(&self.current_key)?;
 			let contacts_changed = ct_hash != acc_ep.contacts_hash;
 			let key_changed = key_hash != acc_ep.key_hash;
-			if contacts_changed {
-				update_account_contacts(endpoint, self).await?;
-			}
+			// The key must be rolled over first: every other request is signed using the new key,
+			// which the server does not know yet.
 			if key_changed {
 				update_account_key(endpoint, self).await?;
+			}
+			if contacts_changed {
+				update_account_contacts(endpoint, self).await?;
 			}
 		} else {
 			register_account(endpoint, self).await?;
